@@ -81,7 +81,12 @@ Preds == {"atom_length", "atom_concat", "sub_atom", "atom_chars", "atom_codes", 
           "select", "succ", "functor", "arg", "univ"}
 
 Mask(t, m) == [i \in 1..Len(t) |-> IF m[i] = "u" THEN <<"v", i>> ELSE t[i]]
-Matches(pat, t) == \A i \in 1..Len(t) : pat[i][1] = "v" \/ pat[i] = t[i]
+Matches(pat, t) == /\ \A i \in 1..Len(t) : pat[i][1] = "v" \/ pat[i] = t[i]
+                   /\ \A i, j \in 1..Len(t) : (pat[i][1] = "v" /\ pat[j] = pat[i]) => t[i] = t[j]      \* one variable in two positions: one value
+\* aliased patterns: two unbound positions of a mode hold the SAME variable (the modes whose answers are built from fresh
+\* variables are left out)
+Alias(p, i, j) == [p EXCEPT ![j] = p[i]]
+AliasOK(pred, m) == ~(pred = "length" /\ m[1] = "u") /\ ~(pred = "append" /\ m[1] = "u" /\ m[3] = "u") /\ ~(pred = "functor" /\ m[1] = "u")
 \* modes with infinitely many answers: the first LIMIT answers, in the order the mode defines
 LIMIT == 5
 Infinite(pred, pat) == \/ pred = "length" /\ pat[1][1] = "v" /\ pat[2][1] = "v"
@@ -104,6 +109,8 @@ VARIABLES pred, pat, done
 Init == /\ pred \in PREDSET
         /\ pat \in LET T == Tuples(pred) IN
                     { Mask(T[k], m) : k \in 1..Len(T), m \in Modes(pred) }
+                    \cup UNION { { Alias(Mask(T[k], m), ij[1], ij[2]) : ij \in { x \in (1..Len(m)) \X (1..Len(m)) : x[1] < x[2] /\ m[x[1]] = "u" /\ m[x[2]] = "u" } } :
+                                 k \in 1..Len(T), m \in { mm \in Modes(pred) : AliasOK(pred, mm) } }
                     \* near misses: a fully instantiated call in which one argument is taken from the next tuple (mostly fails)
                     \cup { [T[k] EXCEPT ![i] = T[(k % Len(T)) + 1][i]] : k \in 1..Len(T), i \in 1..Len(T[1]) }
         /\ done = FALSE
@@ -118,7 +125,7 @@ SubsetLaw == LET general == Answers(pred, pat) IN
              /\ \A k \in 1..Len(general) : Matches(pat, general[k]) \/ Infinite(pred, pat) \/ \E i \in 1..Len(pat) : general[k][i] = Un \/ (general[k][i][1] = "C" /\ Un \in { general[k][i][3][j] : j \in 1..Len(general[k][i][3]) }) \/ general[k][i][1] = "L"
              /\ \A k \in 1..Len(general) : \A i \in 1..Len(pat) :
                    (pat[i][1] = "v" /\ pred \notin {"length", "functor"} /\ ~Infinite(pred, pat)) =>
-                     LET special == Answers(pred, [pat EXCEPT ![i] = general[k][i]]) IN
+                     LET special == Answers(pred, [j \in 1..Len(pat) |-> IF pat[j] = pat[i] THEN general[k][i] ELSE pat[j]]) IN     \* (every position of that variable)
                      \A j \in 1..Len(special) : \E g \in 1..Len(general) : general[g] = special[j]
 ConcatLength == pred = "atom_concat" => LET ans == Answers(pred, pat) IN \A k \in 1..Len(ans) : Len(ans[k][3][2]) = Len(ans[k][1][2]) + Len(ans[k][2][2])
 SubAtomSum == pred = "sub_atom" => LET ans == Answers(pred, pat) IN \A k \in 1..Len(ans) :
